@@ -20,9 +20,15 @@ else
   rm -f _CoqProject.new
 fi
 [ -f Makefile ] || coq_makefile -f _CoqProject -o Makefile >/dev/null
-timeout ${VERIF_MAKE_TIMEOUT:-3000} make -k -j${VERIF_JOBS:-16} > $V/_build/make.log 2>&1
+# optional arguments: the .vo targets to build (default: everything)
+LOG=$V/_build/make.log
+if [ $# -gt 0 ]; then LOG=$V/_build/make.$$.log; fi
+# every single file is capped (time and memory) so that one runaway proof cannot hold the lock
+ulimit -v ${VERIF_COQC_MEM_KB:-16000000}
+timeout ${VERIF_MAKE_TIMEOUT:-3000} make -k -j${VERIF_JOBS:-16} COQC="timeout ${VERIF_COQC_TIMEOUT:-600} coqc" "$@" > $LOG 2>&1
 rc=$?
-echo "make rc=$rc" >> $V/_build/make.log
+echo "make rc=$rc" >> $LOG
+if [ $# -gt 0 ]; then cp $LOG $V/_build/make.last.log; [ -n "${VERIF_BUILD_LOG:-}" ] && cp $LOG "$VERIF_BUILD_LOG"; rm -f $LOG; fi
 # OCaml drivers: one per extracted module ocaml/gen/<name>.ml with ocaml/<name>_driver.ml
 cd $V/ocaml
 for drv in *_driver.ml; do
